@@ -408,6 +408,68 @@ impl StateMonitor {
         }
     }
 
+    /// an ontology with more terms than a 16-bit index can address (the complete HPO has ~19 500)
+    fn many_terms_case(&self, idx: usize, rng: &mut Rng, out: &mut CaseOut) {
+        let n: u32 = 65_600 + (idx as u32) * 700;
+        let mut f = FactSet::default();
+        f.version = (2031, 1, 1);
+        // term ids 1..=n in DESCENDING supply order for idx 0, random order otherwise
+        let mut ids: Vec<u32> = (1..=n).collect();
+        if idx == 0 {
+            ids.reverse();
+        } else {
+            rng.shuffle(&mut ids);
+        }
+        for id in &ids {
+            f.terms.push(TermFact { id: *id, name: format!("t{id}"), obsolete: false, replaced_by: None });
+        }
+        f.edges.push((118, 1));
+        for id in 2..=n {
+            if id == 118 {
+                continue;
+            }
+            // a small DAG among the first 300 ids, everything else hangs below it
+            let k = if id <= 300 { rng.urange(1, 2) } else { 1 };
+            for _ in 0..k {
+                let p = if id <= 300 { rng.range(1, u64::from(id - 1)) as u32 } else { rng.range(1, 300) as u32 };
+                if p != id {
+                    f.edges.push((id, p));
+                }
+            }
+        }
+        for k in 0..3 {
+            for r in 0..4u32 {
+                let terms: Vec<u32> = (0..3).map(|_| rng.range(1, u64::from(n)) as u32).collect();
+                f.recs[k].push(crate::facts::RecFact { id: r + 1 + k as u32, name: format!("{}{r}", KIND_NAMES[k]), terms });
+            }
+        }
+        let path = if idx % 2 == 0 { PathKind::BuilderDefaults } else { PathKind::BytesV3 };
+        out.sig = crate::rng::hash_u64s(&[0x3a27, idx as u64, f.content_hash()]);
+        out.nontrivial = true;
+        out.bucket("more_than_65535_terms");
+        out.bucket(&format!("path/{}", path.name()));
+        out.case = Json::obj().set("kind", Json::s("ontology with more than 65 535 terms")).set("n_terms", Json::u(u64::from(n))).set("path", Json::s(path.name()));
+        let ont = match construct(&f, path, rng, self.prop) {
+            Ok(o) => o,
+            Err(e) => {
+                out.violate(self.prop, &format!("construct_failed_many_terms/{}", path.name()), format!("{e}"));
+                return;
+            }
+        };
+        let (model, obs, diffs) = walk_and_diff(&f, true, &ont, out);
+        for d in &diffs {
+            if owns(self.prop, &d.site) {
+                out.violate(self.prop, &format!("{}/many_terms", d.site), d.detail.clone());
+            }
+        }
+        match self.prop {
+            "C01" => self.self_consistency_c01(&obs, out, "/many_terms"),
+            "C02" => self.c02_extra(&model, &f, out),
+            "C03" => self.c03_checks(&model, &obs, out),
+            _ => {}
+        }
+    }
+
     /// C03 at the documented population limit: 65 535 records of a kind must work exactly; above it the
     /// library documents an error (counts cannot be converted to f32 safely) – an Ok result must still
     /// follow the formula.
@@ -648,6 +710,9 @@ impl Monitor for StateMonitor {
                 v.push(format!("bign:{i}"));
             }
         }
+        for i in 0..2 {
+            v.push(format!("many:{i}"));
+        }
         if matches!(self.prop, "C01" | "C02" | "C03") {
             for i in 0..tier.pick(400, 20_000) {
                 v.push(format!("sub:{i}"));
@@ -668,6 +733,7 @@ impl Monitor for StateMonitor {
     fn mandatory_buckets(&self, _tier: Tier) -> Vec<String> {
         let mut v: Vec<String> = ALL_PATHS.iter().map(|p| format!("path/{}", p.name())).collect();
         v.push("shipped/ontology.hpo".to_string());
+        v.push("more_than_65535_terms".to_string());
         if matches!(self.prop, "C01" | "C02" | "C03") {
             v.push("path/sub_ontology".to_string());
         }
@@ -737,6 +803,10 @@ impl Monitor for StateMonitor {
         }
         if label.starts_with("sub:") {
             self.sub_ontology_case(&mut rng, tier, &mut out);
+            return out;
+        }
+        if let Some(i) = label.strip_prefix("many:") {
+            self.many_terms_case(i.parse().unwrap(), &mut rng, &mut out);
             return out;
         }
         if let Some(i) = label.strip_prefix("bign:") {
